@@ -60,7 +60,8 @@ func (gi *gitlabImporter) ImportAll(ctx context.Context, repo *cache.RepoCache, 
 	go func() {
 		defer close(out)
 
-		for issue := range Issues(ctx, gi.client, gi.conf[confKeyProjectID], since) {
+		issues, issuesErr := Issues(ctx, gi.client, gi.conf[confKeyProjectID], since)
+		for issue := range issues {
 
 			b, err := gi.ensureIssue(repo, issue)
 			if err != nil {
@@ -94,6 +95,11 @@ func (gi *gitlabImporter) ImportAll(ctx context.Context, repo *cache.RepoCache, 
 				out <- core.NewImportError(err, "")
 				return
 			}
+		}
+
+		// a listing that stopped halfway is an import that failed: the caller must not record it as done
+		if err := issuesErr(); err != nil {
+			out <- core.NewImportError(fmt.Errorf("issue listing: %v", err), "")
 		}
 	}()
 
